@@ -120,6 +120,9 @@ func (c *chunkReader) Read(p []byte) (int, error) {
 // execG performs the call against the process-wide implementation and renders the outcome.
 func execG(t *testing.T, c GCall) string {
 	t.Helper()
+	if strings.HasPrefix(c.Op, "conv_") {
+		return execConv(c)
+	}
 	switch c.Op {
 	case "recover_pubkey":
 		m := map[int]rtbls.PublicKey{}
